@@ -409,6 +409,9 @@ func genBlockSet(r *h.Rand) *bSet {
 		for _, i := range perm[:k] {
 			out = append(out, libs[i])
 		}
+		if len(out) >= 2 && r.Chance(30) {
+			out = append(out, out[r.Intn(len(out)-1)]) // imported again after the others: the later import wins
+		}
 		return out
 	}
 	// layout chain
